@@ -6,6 +6,7 @@ package signaling
 
 import (
 	"bufio"
+	"encoding/hex"
 	"encoding/json"
 	"fmt"
 	"io"
@@ -931,6 +932,13 @@ func vC10GenFromDocs(path string) []vCase {
 				if strings.HasPrefix(doc, "bin:") {
 					doc, binary = doc[4:], true
 				}
+				if strings.HasPrefix(doc, "hex:") {
+					raw, err := hex.DecodeString(doc[4:])
+					if err != nil {
+						panic(err)
+					}
+					doc = string(raw)
+				}
 				if i := strings.Index(doc, "@PAD@"); i >= 0 {
 					if j := strings.Index(doc, "@@"); j > 0 && j < i {
 						pad, _ = strconv.Atoi(doc[:j])
@@ -954,7 +962,7 @@ func vC10Gen(e *vEnv, r *vRand) []vCase {
 		return vC10GenFromDocs(p)
 	}
 	var cases []vCase
-	ncases := e.scale(90, 900)
+	ncases := e.scale(600, 3500)
 	perState := e.scale(9, 14)
 	for i := 0; i < ncases; i++ {
 		rr := r.fork()
@@ -977,6 +985,9 @@ func vC10Gen(e *vEnv, r *vRand) []vCase {
 					}
 				}
 			}
+		}
+		if rr.chance(1, 12) {
+			ops = append(ops, "race "+strconv.Itoa(20+rr.intn(60)))
 		}
 		cases = append(cases, vCase{Ops: ops})
 	}
@@ -1084,6 +1095,17 @@ func (x *vC10Exec) op(t *testing.T, op string) string {
 			return "fail:" + vEnc(err.Error())
 		}
 		return "ok"
+	case "race":
+		// two more clients of the bystander's room: one keeps changing transient data, the
+		// other keeps joining and leaving; afterwards everybody must still be served
+		if err := x.ensureWorld(t); err != nil {
+			return "fail:" + vEnc(err.Error())
+		}
+		n := 50
+		if len(f) > 1 {
+			n, _ = strconv.Atoi(f[1])
+		}
+		return x.w.race(n)
 	case "msg":
 		if len(f) < 3 {
 			return "fail:bad-op"
